@@ -177,6 +177,7 @@ package replication
 //@   requires w != nil && w.log != nil && w.engine != nil && w.engine.Manager != nil && w.engine.Manager.store != nil && !chanClosed(w.closer)
 //@   before sync.(*WaitGroup).Wait assert [C15.close.signal] chanClosed(w.closer)
 //@   before table.(*Manager).ReturnTable assert [C15.close.order+C05] w.wg.waited && name == w.table
+//@   ensures forall c Ref :: c != w.closer ==> chanClosed(c) == old(chanClosed(c))      // no other channel is closed
 //@   modifies family(CH_closed), family(G_any_waited), w.engine.Manager.store.rHas, w.engine.Manager.store.rMiss, w.engine.Manager.store.rPair, w.engine.Manager.store.nwk, w.engine.Manager.store.wVal, w.engine.Manager.store.wVer, w.engine.Manager.store.wDel, w.engine.Manager.store.wPrevHas, w.engine.Manager.store.wPrev
 
 // ---------------------------------------------------------------- the worker manager (C05, C15)
@@ -195,7 +196,7 @@ package replication
 //@ func (*workerFactory).create
 //@   maypanic
 //@   requires f != nil && f.log != nil && f.engine != nil
-//@   ensures [C05.factory.worker+C15] result != nil && fresh(result) && result.workerFactory == f && result.table == table && result.closer != nil && !chanClosed(result.closer) && result.store.table == table && result.queue.table == table && result.immediate != nil
+//@   ensures [C05.factory.worker+C15] result != nil && fresh(result) && result.workerFactory == f && result.table == table && result.closer != nil && !chanClosed(result.closer) && fresh(result.closer) && allocated(result.closer) && result.log != nil && result.store.table == table && result.queue.table == table && result.immediate != nil
 //@   modifies nothing
 //@ func (*Manager).hasWorker
 //@   requires m != nil
@@ -234,12 +235,15 @@ package replication
 //@   requires m != nil && m.log != nil && worker != nil && m.workers.registry != nil
 //@   before replication.(*worker).Start assert [C05.mgr.start] w == worker && has(m.workers.registry, worker.table) && m.workers.registry[worker.table] == worker
 //@   ensures has(m.workers.registry, worker.table) && m.workers.registry[worker.table] == worker
+//@   ensures forall n string :: n != worker.table ==> has(m.workers.registry, n) == old(has(m.workers.registry, n)) && m.workers.registry[n] == old(m.workers.registry[n])
 //@   modifies elems(m.workers.registry)
 //@ func (*Manager).stopWorker
 //@   maypanic
 //@   requires m != nil && m.log != nil && worker != nil && m.workers.registry != nil && worker.log != nil && worker.engine != nil && worker.engine.Manager != nil && worker.engine.Manager.store != nil && !chanClosed(worker.closer)
 //@   before replication.(*worker).Close assert [C15.mgr.stop+C05] w == worker
 //@   ensures [C05.mgr.unregister] !has(m.workers.registry, worker.table)
+//@   ensures forall n string :: n != worker.table ==> has(m.workers.registry, n) == old(has(m.workers.registry, n)) && m.workers.registry[n] == old(m.workers.registry[n])
+//@   ensures forall c Ref :: c != worker.closer ==> chanClosed(c) == old(chanClosed(c))
 //@   modifies elems(m.workers.registry), family(CH_closed), family(G_any_waited), worker.engine.Manager.store.rHas, worker.engine.Manager.store.rMiss, worker.engine.Manager.store.rPair, worker.engine.Manager.store.nwk, worker.engine.Manager.store.wVal, worker.engine.Manager.store.wVer, worker.engine.Manager.store.wDel, worker.engine.Manager.store.wPrevHas, worker.engine.Manager.store.wPrev
 // the manager's service loop: a failed reconciliation skips one round, it does not end the service
 // reconcileTables: a successful round has read the leader's table list AND the follower's own
@@ -255,12 +259,27 @@ package replication
 //@ func regattapb.(*MetadataResponse).GetTables
 //@   assumed
 //@   modifies nothing
+// ContainsFunc: some element satisfies the (pure) predicate
 //@ func slices.ContainsFunc[[]*regattapb.Table,*regattapb.Table]
 //@   assumed
-//@   modifies nothing
+//@   pure
+//@   functype f pure
+//@   params s, f
+//@   ensures result == exists j int :: 0 <= j && j < len(s) && f(s[j])
 //@ func slices.ContainsFunc[[]table.Table,table.Table]
 //@   assumed
-//@   modifies nothing
+//@   pure
+//@   functype f pure
+//@   params s, f
+//@   ensures result == exists j int :: 0 <= j && j < len(s) && f(s[j])
+//@ func (*Manager).reconcileTables$1
+//@   pure
+//@   maypanic
+//@   ensures result == ((*ft).Name == lt.Name)
+//@ func (*Manager).reconcileTables$2
+//@   pure
+//@   maypanic
+//@   ensures result == ((*ft).Name == lt.Name)
 //@ func (*Manager).reconcileTables
 //@   maypanic
 //@   requires m != nil && m.metadataClient != nil && m.engine != nil && m.engine.Manager != nil && m.engine.Manager.store != nil && m.engine.Manager.nh != nil
@@ -269,12 +288,57 @@ package replication
 //@   before table.(*Manager).CreateTable assert [C05.tables.create] exists j int :: 0 <= j && j < len(toCreate) && toCreate[j] == name
 //@   modifies m.engine.Manager.lastTables, family(G_any_rHas), family(G_any_rMiss), family(G_any_rPair), family(G_any_nwk), family(G_any_wVal), family(G_any_wVer), family(G_any_wDel), family(G_any_wPrevHas), family(G_any_wPrev), world.clock
 //@   loop 0 invariant -1 <= rangeindex && rangeindex < len(followerTables) && fresh(m.engine.Manager.lastTables) && (isNilSlice(toDelete) || fresh(toDelete))
+//@   loop 0 invariant forall i int :: 0 <= i && i < len(toDelete) ==> (exists a int :: 0 <= a && a <= rangeindex && followerTables[a].Name == toDelete[i]) && !(exists b int :: 0 <= b && b < len(leaderTables) && leaderTables[b].Name == toDelete[i])
+//@   loop 0 exit [C05.tables.prune.only+C14] forall i int :: 0 <= i && i < len(toDelete) ==> !(exists b int :: 0 <= b && b < len(leaderTables) && leaderTables[b].Name == toDelete[i])      // only tables the leader does not list are dropped
+//@   loop 1 invariant forall i int :: 0 <= i && i < len(toCreate) ==> (exists a int :: 0 <= a && a <= rangeindex && leaderTables[a].Name == toCreate[i]) && !(exists b int :: 0 <= b && b < len(followerTables) && followerTables[b].Name == toCreate[i])
+//@   loop 1 exit [C05.tables.create.only+C14] forall i int :: 0 <= i && i < len(toCreate) ==> exists a int :: 0 <= a && a < len(leaderTables) && leaderTables[a].Name == toCreate[i]      // only tables the leader lists are created
 //@   loop 1 invariant -1 <= rangeindex && rangeindex < len(leaderTables) && fresh(m.engine.Manager.lastTables) && (isNilSlice(toDelete) || fresh(toDelete)) && (isNilSlice(toCreate) || fresh(toCreate))
 //@   loop 2 invariant -1 <= rangeindex && rangeindex < len(toDelete) && m.engine == old(m.engine) && m.engine.Manager == old(m.engine.Manager) && m.engine.Manager.store == old(m.engine.Manager.store) && m.engine.Manager.nh == old(m.engine.Manager.nh) && fresh(m.engine.Manager.lastTables)
 //@   loop 3 invariant -1 <= rangeindex && rangeindex < len(toCreate) && m.engine == old(m.engine) && m.engine.Manager == old(m.engine.Manager) && m.engine.Manager.store == old(m.engine.Manager.store) && m.engine.Manager.nh == old(m.engine.Manager.nh) && fresh(m.engine.Manager.lastTables)
 //@ func (*Manager).reconcileWorkers
 //@   assumed
 //@   modifies nothing
+// what is VERIFIED of reconcileWorkers (secondary contract, checked against the body; registry
+// well-formedness - every registered worker is a started, open worker registered under its table's
+// name, with a closer of its own - is the invariant startWorker/stopWorker keep, assumed here):
+// afterwards every catalogued table has a worker - whatever the sizes of the two sets were - and
+// only workers of tables that are no longer catalogued were stopped
+//@ pure func workerOK(w *worker) bool = w != nil && w.log != nil && w.engine != nil && w.engine.Manager != nil && w.engine.Manager.store != nil
+//@ iface replication.tableLister.GetTables
+//@   assumed
+//@   modifies nothing
+//@ func (*Manager).reconcileWorkers$1
+//@   pure
+//@   ensures result == (t.Name == *name)
+//@ func (*Manager).reconcileWorkers#diff
+//@   maypanic
+//@   requires m != nil && m.log != nil && m.engine != nil && m.engine.Manager != nil && m.engine.Manager.store != nil && m.workers.registry != nil && m.factory != nil && m.factory.log != nil && m.factory.engine != nil && m.factory.engine.Manager != nil && m.factory.engine.Manager.store != nil
+//@   requires [registry] forall n string :: has(m.workers.registry, n) ==> workerOK(m.workers.registry[n]) && m.workers.registry[n].table == n && !chanClosed(m.workers.registry[n].closer)
+//@   requires [registry] forall n string :: has(m.workers.registry, n) ==> allocated(m.workers.registry[n].closer)
+//@   requires [registry] forall a string, b string :: has(m.workers.registry, a) && has(m.workers.registry, b) && a != b ==> m.workers.registry[a].closer != m.workers.registry[b].closer
+//@   ensures [C05.workers.all+C15] result == nil ==> forall n string :: has(m.engine.Manager.lastTables, n) ==> has(m.workers.registry, n)      // every catalogued table has its worker afterwards - on EVERY successful path, whatever the sizes of the two sets were
+//@   before replication.(*Manager).startWorker assert [C05.workers.start] !has(m.workers.registry, worker.table) && exists j int :: 0 <= j && j < len(tbs) && tbs[j].Name == worker.table
+//@   before replication.(*Manager).stopWorker assert [C05.workers.stop+C15] forall j int :: 0 <= j && j < len(tbs) ==> tbs[j].Name != worker.table
+//@   modifies m.engine.Manager.lastTables, elems(m.workers.registry), family(CH_closed), family(G_any_waited), family(G_any_rHas), family(G_any_rMiss), family(G_any_rPair), family(G_any_nwk), family(G_any_wVal), family(G_any_wVer), family(G_any_wDel), family(G_any_wPrevHas), family(G_any_wPrev)
+//@   loop 0 invariant (forall n string :: has(m.engine.Manager.lastTables, n) ==> exists j int :: 0 <= j && j < len(tbs) && tbs[j].Name == n) && m.engine.Manager == old(m.engine.Manager)
+//@   loop 0 invariant -1 <= rangeindex && rangeindex < len(tbs) && m.log != nil && m.engine == old(m.engine) && m.workers.registry == old(m.workers.registry) && m.factory == old(m.factory) && m.factory.log != nil && m.factory.engine != nil
+//@   loop 0 invariant [C05.workers.complete] forall j int :: 0 <= j && j <= rangeindex ==> has(m.workers.registry, tbs[j].Name)
+//@   loop 0 invariant forall n string :: has(m.workers.registry, n) ==> workerOK(m.workers.registry[n]) && m.workers.registry[n].table == n && !chanClosed(m.workers.registry[n].closer)
+//@   loop 0 invariant forall n string :: has(m.workers.registry, n) ==> allocated(m.workers.registry[n].closer)
+//@   loop 0 invariant forall a string, b string :: has(m.workers.registry, a) && has(m.workers.registry, b) && a != b ==> m.workers.registry[a].closer != m.workers.registry[b].closer
+//@   loop 1 invariant m.log != nil && m.workers.registry == old(m.workers.registry) && (isNilSlice(toStop) || fresh(toStop))
+//@   loop 1 invariant forall j int :: 0 <= j && j < len(tbs) ==> has(m.workers.registry, tbs[j].Name)
+//@   loop 1 invariant (forall n string :: has(m.engine.Manager.lastTables, n) ==> exists j int :: 0 <= j && j < len(tbs) && tbs[j].Name == n) && m.engine == old(m.engine) && m.engine.Manager == old(m.engine.Manager)
+//@   loop 1 invariant forall n string :: has(m.workers.registry, n) ==> workerOK(m.workers.registry[n]) && m.workers.registry[n].table == n && !chanClosed(m.workers.registry[n].closer)
+//@   loop 1 invariant forall a string, b string :: has(m.workers.registry, a) && has(m.workers.registry, b) && a != b ==> m.workers.registry[a].closer != m.workers.registry[b].closer
+//@   loop 1 invariant forall i int :: 0 <= i && i < len(toStop) ==> exists n string :: rangeSeen(0, n) && has(m.workers.registry, n) && toStop[i] == m.workers.registry[n] && forall j int :: 0 <= j && j < len(tbs) ==> tbs[j].Name != n
+//@   loop 1 invariant forall i int, k int :: 0 <= i && i < k && k < len(toStop) ==> toStop[i].closer != toStop[k].closer
+//@   loop 2 invariant -1 <= rangeindex && rangeindex < len(toStop) && m.log != nil && m.workers.registry == old(m.workers.registry)
+//@   loop 2 invariant forall j int :: 0 <= j && j < len(tbs) ==> has(m.workers.registry, tbs[j].Name)
+//@   loop 2 invariant (forall n string :: has(m.engine.Manager.lastTables, n) ==> exists j int :: 0 <= j && j < len(tbs) && tbs[j].Name == n) && m.engine == old(m.engine) && m.engine.Manager == old(m.engine.Manager)
+//@   loop 2 invariant forall i int :: rangeindex < i && i < len(toStop) ==> workerOK(toStop[i]) && !chanClosed(toStop[i].closer) && forall j int :: 0 <= j && j < len(tbs) ==> tbs[j].Name != toStop[i].table
+//@   loop 2 invariant forall i int, k int :: 0 <= i && i < k && k < len(toStop) ==> toStop[i].closer != toStop[k].closer
+//@   loop 2 exit [C05.workers.all+C15] forall j int :: 0 <= j && j < len(tbs) ==> has(m.workers.registry, tbs[j].Name)      // every catalogued table has its worker - whatever the sizes of the two sets were
 //@ func (*Manager).Start$1
 //@   maypanic
 //@   requires *m != nil && (*m).log != nil && allocated((*m).closer) && (*m).metadataClient != nil && (*m).engine != nil && (*m).engine.Manager != nil && (*m).engine.Manager.store != nil && (*m).engine.Manager.nh != nil
@@ -310,3 +374,20 @@ package replication
 //@   ensures [C05.mgr.factory+C15] result != nil && fresh(result) && result.engine == e && result.factory != nil && result.factory.engine == e && result.factory.queue == queue && result.factory.pollInterval == cfg.Workers.PollInterval && result.factory.leaseInterval == cfg.Workers.LeaseInterval && result.factory.logTimeout == cfg.Workers.LogRPCTimeout && result.factory.snapshotTimeout == cfg.Workers.SnapshotRPCTimeout && result.factory.maxSnapshotRecv == cfg.Workers.MaxSnapshotRecv && result.factory.reconcileInterval == cfg.ReconcileInterval && result.reconcileInterval == cfg.ReconcileInterval && result.factory.recoverySemaphore != nil && result.factory.logClient != nil && result.factory.snapshotClient != nil && result.factory.log != nil && result.workers.registry != nil && result.closer != nil && !chanClosed(result.closer)
 //@   ensures [C05.mgr.store] typeIs(result.factory.store, *kv.RaftStore) && asType(result.factory.store, *kv.RaftStore) != nil && asType(result.factory.store, *kv.RaftStore).NodeHost == e.NodeHost && asType(result.factory.store, *kv.RaftStore).ClusterID == replicationStoreID
 //@   modifies nothing
+
+// ---------------------------------------------------------------- starting the follower's replication (C05)
+
+// Start: the service loop (Start$1, above: left only through the closer) is started - once - and not
+// before the queue-length store's shard, when it is a replicated one, has been started without error
+//@ ghostfield any.nreconR Int
+//@ spawn (*Manager).Start$1
+//@   ensures (*m).nreconR == old((*m).nreconR) + 1
+//@   modifies (*m).nreconR
+//@ func (*Manager).Start
+//@   maypanic
+//@   results err
+//@   requires m != nil && m.log != nil && allocated(m.closer) && m.metadataClient != nil && m.engine != nil && m.engine.Manager != nil && m.engine.Manager.store != nil && m.engine.Manager.nh != nil && m.factory != nil
+//@   requires typeIs(m.factory.store, *kv.RaftStore) ==> asType(m.factory.store, *kv.RaftStore) != nil && asType(m.factory.store, *kv.RaftStore).NodeHost != nil
+//@   ensures [C05.mgr.started] err == nil ==> m.nreconR == old(m.nreconR) + 1
+//@   ensures err != nil ==> m.nreconR == old(m.nreconR)
+//@   modifies m.nreconR
